@@ -4,6 +4,7 @@ package c04
 import (
 	"context"
 	"fmt"
+	"os"
 	"testing"
 
 	"verifharness/internal/gspec"
@@ -40,7 +41,17 @@ func TestCheck(t *testing.T) {
 	}()
 	ctx := context.Background()
 	n := int64(cfg.Pick(300, 400))
-	rep.Cases(n, func(idx int64, rng *mon.Rand) {
+	nTyped := int64(cfg.Pick(700, 6000))
+	rep.Cases(n+nTyped, func(idx int64, rng *mon.Rand) {
+		if idx < n && os.Getenv("C04_TYPED_ONLY") != "" {
+			return // debugging aid: skip the gspec workload
+		}
+		if idx >= n {
+			// typed sub-workload (typed_*_test.go): nodes over string / any / a named interface /
+			// pointer / struct / map, nil values, typed nils, absent keys
+			typedCase(ctx, rep, rng, cfg, idx < n+3)
+			return
+		}
 		if idx%6 == 5 {
 			chainCase(ctx, rep, rng, cfg)
 			return
